@@ -208,6 +208,26 @@ func checkC15(c *Ctx) {
 			}
 		})
 	}
+	// the queue's consumer: with operations queued as records (a kind plus operands) instead of
+	// closures, the operation bodies are what the consumer runs synchronously for a record it
+	// received — functions reached from nowhere else run on the hub goroutine only
+	consumers := map[*ssa.Function]bool{}
+	for k, os := range eng.ChanOps(p.Funcs) {
+		if !strings.HasPrefix(k, "field:") || !strings.Contains(k, "msghub.opChan@") {
+			continue
+		}
+		for _, o := range os {
+			if o.Kind == "recv" && !p.IsTestSupport(o.Fn) {
+				consumers[o.Fn] = true
+			}
+		}
+	}
+	recordQueue := false
+	if ch, ok := fOp.Type().Underlying().(*types.Chan); ok {
+		if _, isFn := ch.Elem().Underlying().(*types.Signature); !isFn {
+			recordQueue = true
+		}
+	}
 	nAcc := 0
 	badActor := map[string]string{}
 	for _, fn := range p.Funcs {
@@ -230,12 +250,50 @@ func checkC15(c *Ctx) {
 			nAcc++
 			// inside an operation closure, or in a helper that is only ever reached from
 			// operation closures (or the constructor)
-			okA, _ := p.OnlyReachedFrom(fn, func(g *ssa.Function) bool { return isOpClosure(g) || opFns[g] || g == hubNew })
+			okA, _ := p.OnlyReachedFrom(fn, func(g *ssa.Function) bool {
+				return isOpClosure(g) || opFns[g] || g == hubNew || recordQueue && len(consumers) == 1 && consumers[g]
+			})
+			if recordQueue && len(consumers) == 1 && consumers[fn] {
+				okA = true
+			}
 			// an exported method is an entry point of its own (it is also handed out as a method
 			// value — hub.Dispatch registered with the event brokers — which does not make the
 			// function that created the value its only caller)
-			if fn.Parent() == nil && fn != hubNew && !opFns[fn] && fn.Object() != nil && fn.Object().Exported() {
+			isEntry := func(g *ssa.Function) bool {
+				return g.Parent() == nil && g != hubNew && !opFns[g] && g.Object() != nil && g.Object().Exported() && !(recordQueue && consumers[g])
+			}
+			if isEntry(fn) {
 				okA = false
+			}
+			// the same for every function on a call chain into fn: a helper that Dispatch calls
+			// directly runs on the caller's goroutine, whoever else calls it
+			if okA {
+				isRoot := func(g *ssa.Function) bool {
+					return isOpClosure(g) || opFns[g] || g == hubNew || recordQueue && len(consumers) == 1 && consumers[g]
+				}
+				seenUp := map[*ssa.Function]bool{}
+				var viaEntry func(g *ssa.Function, depth int) bool
+				viaEntry = func(g *ssa.Function, depth int) bool {
+					if seenUp[g] || depth > 12 {
+						return false
+					}
+					seenUp[g] = true
+					if isEntry(g) {
+						return true
+					}
+					if isRoot(g) {
+						return false
+					}
+					for _, cg := range p.LogicalCallers(g) {
+						if viaEntry(cg, depth+1) {
+							return true
+						}
+					}
+					return false
+				}
+				if viaEntry(fn, 0) {
+					okA = false
+				}
 			}
 			if !okA {
 				badActor["Hub."+f.Name()+"@"+shortFn(fn)] = p.InstrPos(in)
@@ -304,7 +362,7 @@ func checkC15(c *Ctx) {
 
 	c.c15RingWalks(hubFns)
 	c.c15ReplayRegister(hubFns, fHist, fList)
-	c.c15Broadcast(hubFns, fList)
+	c.c15Broadcast(hubFns, fList, fOp)
 	c.c15DropFailed(hubFns, fList)
 	c.c15QueueCapacity()
 
@@ -562,8 +620,108 @@ func (c *Ctx) c15ReplayRegister(hubFns []*ssa.Function, fHist, fList *types.Var)
 // c15Broadcast: an operation that relays an event to the listeners does so on every path:
 // the relay must not depend on the history being kept (ring.New(0) is nil) or on anything
 // else.
-func (c *Ctx) c15Broadcast(hubFns []*ssa.Function, fList *types.Var) {
+func (c *Ctx) c15Broadcast(hubFns []*ssa.Function, fList, fOp *types.Var) {
 	r, p := c.R, c.P
+	// dispatchers: with operations queued as records, the functions between the receive and the
+	// operation bodies — the one that receives from the queue and those that are handed the
+	// record — select a body by the record's kind; the operation is the body, not the selector
+	dispatcher := map[*ssa.Function]bool{}
+	var elemT types.Type
+	if ch, ok := fOp.Type().Underlying().(*types.Chan); ok {
+		if _, isFn := ch.Elem().Underlying().(*types.Signature); !isFn {
+			elemT = ch.Elem()
+		}
+	}
+	isRecord := func(t types.Type) bool {
+		if elemT == nil {
+			return false
+		}
+		if pt, ok := t.(*types.Pointer); ok {
+			t = pt.Elem()
+		}
+		et := elemT
+		if pt, ok := et.(*types.Pointer); ok {
+			et = pt.Elem()
+		}
+		return types.Identical(t, et)
+	}
+	if elemT != nil {
+		for _, fn := range hubFns {
+			for _, prm := range fn.Params {
+				if isRecord(prm.Type()) {
+					dispatcher[fn] = true
+				}
+			}
+			eng.EachInstr(fn, func(in ssa.Instruction) {
+				switch x := in.(type) {
+				case *ssa.Select:
+					for _, st := range x.States {
+						if st.Dir == types.RecvOnly && eng.SameField(eng.LoadedField(st.Chan), fOp) {
+							dispatcher[fn] = true
+						}
+					}
+				case *ssa.UnOp:
+					if x.Op == token.ARROW && eng.SameField(eng.LoadedField(x.X), fOp) {
+						dispatcher[fn] = true
+					}
+				}
+			})
+		}
+	}
+	// selectsByKind: every branch that decides whether site runs compares a field of the
+	// record (or the select's arm index / receive status) with a constant
+	selectsByKind := func(site ssa.Instruction) (string, bool) {
+		fn := site.Parent()
+		for _, b := range fn.Blocks {
+			if len(b.Succs) != 2 || b == site.Block() || !b.Dominates(site.Block()) {
+				continue
+			}
+			// does the branch matter? some edge reaches a return without passing the site
+			matters := false
+			for k := range b.Succs {
+				if eng.BlockReaches(b.Succs[k], eng.IsReturnOf(fn), func(in ssa.Instruction) bool { return in == site }) != nil {
+					matters = true
+				}
+			}
+			if !matters {
+				continue
+			}
+			okCond := false
+			if rel, ok := eng.EdgeRel(b, 0); ok {
+				x, y := rel.X, rel.Y
+				if _, isC := y.(*ssa.Const); !isC {
+					x, y = y, x
+				}
+				if _, isC := y.(*ssa.Const); isC {
+					switch v := eng.StripConv(x).(type) {
+					case *ssa.Extract:
+						if _, isSel := v.Tuple.(*ssa.Select); isSel {
+							okCond = true
+						}
+					case *ssa.UnOp:
+						if fa, ok := v.X.(*ssa.FieldAddr); ok && isRecord(fa.X.Type()) {
+							okCond = true
+						}
+					case *ssa.Field:
+						if isRecord(v.X.Type()) {
+							okCond = true
+						}
+					}
+				}
+			}
+			if v, _, ok := eng.CondTruth(b, 0); ok && !okCond {
+				if ex, isEx := v.(*ssa.Extract); isEx {
+					if _, isSel := ex.Tuple.(*ssa.Select); isSel {
+						okCond = true
+					}
+				}
+			}
+			if !okCond {
+				return p.InstrPos(eng.IfOf(b)), false
+			}
+		}
+		return "", true
+	}
 	r.Rule("C15/ACTOR/broadcast-unconditional", "in every hub operation that relays to the registered listeners (a loop over Hub.listeners calling a Listener method, directly or in a helper), every path from entry to return passes that loop")
 	inHub := map[*ssa.Function]bool{}
 	for _, fn := range hubFns {
@@ -573,7 +731,7 @@ func (c *Ctx) c15Broadcast(hubFns []*ssa.Function, fList *types.Var) {
 	for _, fn := range hubFns {
 		eng.EachInstr(fn, func(in ssa.Instruction) {
 			if call, ok := in.(*ssa.Call); ok {
-				if g := eng.StaticCallee(call.Common()); g != nil && inHub[g] {
+				if g := eng.StaticCallee(call.Common()); g != nil && inHub[g] && !dispatcher[fn] {
 					called[g] = true
 				}
 			}
@@ -621,6 +779,36 @@ func (c *Ctx) c15Broadcast(hubFns []*ssa.Function, fList *types.Var) {
 	n := 0
 	for _, fn := range hubFns {
 		if called[fn] {
+			continue
+		}
+		if dispatcher[fn] {
+			// the selector itself: the operation bodies it calls are judged on their own; what
+			// decides whether a relaying body runs must be the record's kind alone
+			eng.EachInstr(fn, func(in ssa.Instruction) {
+				call, ok := in.(*ssa.Call)
+				if !ok || isRange(in) {
+					if isRange(in) {
+						n++
+						r.Undecided("C15/ACTOR/broadcast-unconditional", shortFn(fn)+":inline", p.InstrPos(in), "the relay loop sits in the function that selects the operation; the rule judges operation bodies that are functions of their own")
+					}
+					return
+				}
+				g := eng.StaticCallee(call.Common())
+				if g == nil || !inHub[g] || (mentions(g) == nil && !dispatcher[g]) || g == fn {
+					return
+				}
+				if dispatcher[g] {
+					if where, ok := selectsByKind(in); !ok {
+						n++
+						r.Bad("C15/ACTOR/broadcast-unconditional", shortFn(fn)+"→"+shortFn(g), where, "whether the received operation is run at all depends on something other than the operation itself")
+					}
+					return
+				}
+				if where, ok := selectsByKind(in); !ok {
+					n++
+					r.Bad("C15/ACTOR/broadcast-unconditional", shortFn(fn)+"→"+shortFn(g), where, "the relaying operation %s is run only under a condition other than the queued operation's kind: with such a state or configuration monitors never see the event", shortFn(g))
+				}
+			})
 			continue
 		}
 		at := mentions(fn)
@@ -1095,9 +1283,69 @@ func (c *Ctx) c15DropFailed(hubFns []*ssa.Function, fList *types.Var) {
 				cell = eng.CellOf(u.X)
 			}
 			if cell == nil {
-				if _, isPrm := key.(*ssa.Parameter); isPrm && fn.Parent() == nil {
-					// an explicit unregister operation: RemoveListener(l)
-					r.Ok("C15/ISOLATE/drop-the-failed", cons, p.InstrPos(in), "the key is the listener the caller named")
+				// named: v is a listener the caller of the operation named — a parameter, or a field
+				// of a record parameter (the queued operation's operand: op.listener)
+				named := func(v ssa.Value) bool {
+					switch x := v.(type) {
+					case *ssa.Parameter:
+						return true
+					case *ssa.Field:
+						_, isP := x.X.(*ssa.Parameter)
+						return isP
+					case *ssa.UnOp:
+						// a parameter of the exported operation, captured by the queued closure
+						if cl := eng.CellOf(x.X); cl != nil && x.Op == token.MUL {
+							sts := eng.CellStores(cl)
+							all := len(sts) > 0
+							for _, st := range sts {
+								if _, isP := st.Val.(*ssa.Parameter); !isP {
+									all = false
+								}
+							}
+							if all {
+								return true
+							}
+						}
+						if fa, ok := x.X.(*ssa.FieldAddr); ok && x.Op == token.MUL {
+							if _, isP := fa.X.(*ssa.Parameter); isP {
+								return true
+							}
+							// a record parameter spilled to a local
+							if al, isA := fa.X.(*ssa.Alloc); isA {
+								sts := eng.CellStores(al)
+								if len(sts) == 1 {
+									_, isP := sts[0].Val.(*ssa.Parameter)
+									return isP
+								}
+							}
+						}
+					}
+					return false
+				}
+				if prm, isPrm := key.(*ssa.Parameter); isPrm && fn.Parent() == nil {
+					// a helper that drops the listener it is given (dropOnError(l, err)): what the
+					// hub's own code hands it must be the relay loop's key, or a listener named by
+					// the caller of an explicit unregister operation
+					var wrong []string
+					for _, cs := range p.StaticCallSites(fn) {
+						pi := eng.ParamIndex(prm)
+						if pi < 0 || pi >= len(cs.Args) {
+							continue
+						}
+						if a := cs.Args[pi]; rangeKey(a) == nil && !named(a) {
+							wrong = append(wrong, p.InstrPos(cs.Instr.(ssa.Instruction)))
+						}
+					}
+					if len(wrong) > 0 {
+						sort.Strings(wrong)
+						r.Undecided("C15/ISOLATE/drop-the-failed", cons, p.InstrPos(in), "the listener handed to %s at %s is neither the relay loop's key nor one the caller named", shortFn(fn), strings.Join(wrong, ", "))
+						return
+					}
+					r.Ok("C15/ISOLATE/drop-the-failed", cons, p.InstrPos(in), "the key is the listener the caller named (the relay loop's key at every call in the hub)")
+					return
+				}
+				if named(key) {
+					r.Ok("C15/ISOLATE/drop-the-failed", cons, p.InstrPos(in), "the key is the listener the queued operation names")
 					return
 				}
 				if fv, isFV := key.(*ssa.FreeVar); isFV {
